@@ -70,6 +70,13 @@ def suite_enc(ctx, focus='C01'):
                 elif c.canon is not None:
                     spec_lines.append('specdec iocp=%d iolen=%d frame=%s' % (c.view[0], c.view[1], want.hex()))
                     spec_meta.append((c, want, f[0] in HAS_SUBFN))
+            # the same call on a client whose suppress / override block is already over (left by an exception or normally): the plain frame
+            if focus == 'C01' and rng.random() < 0.12:
+                how_ = rng.choice(['spr_exc', 'spr_exc', 'spr_ok', 'ovr_exc'])
+                sends3, _, _ = enclib.run_case(c, after=how_)
+                s.count('after:' + how_)
+                if sends3 != [sends[0]]:
+                    s.fail(dict(rec, observed='after a block that is over (%s): %s' % (how_, [x.hex() for x in sends3]), required=sends[0].hex()))
         else:
             if touched and focus == 'C07':
                 if getattr(c, 'todo_subfunction', False):
